@@ -66,7 +66,7 @@ var properties = map[string]Property{
 	},
 	"C17": {
 		Level:       "translation_validation",
-		Rules:       []string{"TV-RULES", "TV-ACTIONS", "TV-WF", "TV-CATCHALL", "TV-ENGINE", "P-RESTRICT", "P-ERRCHECK", "P-PANICTYPE", "U-INDEX", "U-RUNELEN", "N-GETSET", "G-IMPORTS"},
+		Rules:       []string{"TV-RULES", "TV-ACTIONS", "TV-WF", "TV-CATCHALL", "TV-ENGINE", "P-RESTRICT", "P-ERRCHECK", "P-PANICTYPE", "U-INDEX", "U-RUNELEN", "N-GETSET", "N-VGSUM", "G-IMPORTS"},
 		Explanation: "Translation validation of the generated packrat parser against the published grammar: each of the grammar's rules is decompiled from the goto-template code of its rule function or inlined copies and shown equivalent after normalisation (literals to rune sequences, classes to interval sets, e+ to e e*, `-switch` choices under FIRST-set side conditions); every action body in Execute equals the grammar's action as Go syntax; the grammar-independent engine is the generator's boilerplate; the start rule is total and its catch-all captures the rest after the longest path prefix. Plus: every documented semantic restriction is enforced where the construct is built; the reported position is a character index taken from the token tree and is never used to slice a byte string. Not decided: that strconv / regexp accept what the prose calls 'valid for Go' (they are the definition).",
 	},
 	"C18": {
@@ -87,7 +87,7 @@ var properties = map[string]Property{
 	},
 	"C09": {
 		Level:       "other",
-		Rules:       []string{"V-OPS", "V-WIRE", "V-PREC", "V-SINGLE-RIGHT", "V-VALIDATED", "V-INPUT-PURE", "V-BOOL", "V-TWO-CURRENT", "N-GETSET", "G-IMPORTS"},
+		Rules:       []string{"V-OPS", "V-WIRE", "V-PREC", "V-SINGLE-RIGHT", "V-LITERAL", "V-VALIDATED", "V-INPUT-PURE", "V-BOOL", "V-TWO-CURRENT", "N-GETSET", "G-IMPORTS"},
 		Explanation: "Decided (structural part): each ordering builder realises one operator on every path — straight operands with its own comparator, exchanged operands with the mirror comparator — and the four operators are each realised by exactly one builder; every comparator's loop keeps exactly the elements for which `element OP right` holds and blanks the others; `!=` is NOT(==) over the same operands in order; no comparison is built with a per-member operand on the right of a member-independent one (evaluation reads only right[0]). Also decided (per-node half of the Boolean-algebra clause): a symbolic execution of the AND / OR / NOT nodes compares, for every path and every path through the merge loop, the truth value of the returned list at a member with the truth table of the operator the grammar wires the node to, with the length-1 whole-match convention as path facts (V-BOOL); no query returns or writes the member list it was given, so the operands of one operator see the same members (V-INPUT-PURE); a comparison of two per-member operands cannot be built (V-TWO-CURRENT). Not decided: the composition over whole filter expressions as a relation between query results. Also decided: each comparison / logical token of the grammar the generated parser runs runs the builder of its own operator with (left, right) in source order, and `||` binds looser than `&&`, looser than comparison / parentheses / `!`.",
 	},
 	"C10": {
@@ -113,7 +113,7 @@ var properties = map[string]Property{
 	},
 	"C14": {
 		Level:       "other",
-		Rules:       []string{"N-FUNCALL", "N-FORWARD", "P-RTERR", "O-POOL", "B-CHAIN", "P-RESTRICT", "N-WALK", "N-GETSET", "N-HEAD", "G-IMPORTS"},
+		Rules:       []string{"N-FUNCALL", "N-FORWARD", "P-RTERR", "O-POOL", "B-CHAIN", "P-RESTRICT", "N-WALK", "N-GETSET", "N-HEAD", "N-VGSUM", "G-IMPORTS"},
 		Explanation: "Decided (structural part): a function node calls its user function at exactly one site, outside loops; the filter function receives the node's current value; the aggregate receives the list of its private pooled sink, or element 0 as an array only under the parameter's value-group test being false and a successful checked assertion; the function's result is what is forwarded; ErrorFunctionFailed is built only when that call returned an error; the chain builder keeps its link target on the step just processed (so a step after an aggregate is linked behind the aggregate). Not decided: that the value-group flag is correct for the chain (the live `$.a.*.f()` defect), . Also decided: function names are looked up in the filter table first, then the aggregate table, else ErrorFunctionNotFound.",
 	},
 	"C15": {
